@@ -9,7 +9,8 @@
                                       9 `if <cond>: self._make_bkg_rms(filename=filename, forced_rms=.., forced_bkg=.., cores=cores)`
                                       10 / 11 first / second `if <file>: self.global_data.<map> = self._load_aux_image(img, <file>)`
                                       12 `img -= self.global_data.<map>`
-                                  the early return `if self.global_data.img is not None: return` as FIRST statement, the boolean
+                                  the early return `if self.global_data.img is not None: return` as FIRST statement, whether it is
+                                  directly followed by `if cube_index is None: cube_index = 0` (constant; refused anywhere else), the boolean
                                   conditions of 9 / 10 / 11 as functions of (rmsin given, bkgin given), which map each replacement
                                   writes and which file it loads, the operand of the subtraction, which of rms / bkg is handed to
                                   forced_rms / forced_bkg, the curvature constants (filter size, values written for maxima / minima and
@@ -122,6 +123,7 @@ def _load_globals(tree):
             and len(e.body) == 1 and isinstance(e.body[0], ast.Return) and e.body[0].value is None,
             "load_globals: first statement is not `if self.global_data.img is not None: return`")
     out['early_return'] = True
+    out['cube_default'] = False
     envf = {'truthy:rmsin': 'rmsin', 'truthy:bkgin': 'bkgin', 'isnone:rmsin': 'rmsin', 'isnone:bkgin': 'bkgin'}
     stages = []
     repl = []
@@ -130,6 +132,14 @@ def _load_globals(tree):
         ga = _gd_assign(st)
         if isinstance(st, ast.Return):
             _expect(st.value is None and st is body[-1], "load_globals: return with a value / not last")
+            continue
+        if isinstance(st, ast.If) and src(st.test) == 'cube_index is None':
+            # the repair `if cube_index is None: cube_index = 0`: only directly after the early return, i.e. before the image is
+            # loaded and before global_data.cube_index is stored (so that BANE and the later calls see 0 as well)
+            _expect(not st.orelse and [src(x) for x in st.body] == ['cube_index = 0'],
+                    f"load_globals: unexpected default for cube_index: {s[:100]}")
+            _expect(st is body[1] and not stages, "load_globals: the cube_index default is not directly after the early return")
+            out['cube_default'] = True
             continue
         if isinstance(st, ast.Assign) and src(st.targets[0]) in ('(img, header)', 'img, header'):
             c = st.value
@@ -265,6 +275,9 @@ def _load_globals(tree):
                 and any(src(t) == G + attr or src(t).startswith(G + attr + '[')
                         for t in (x.targets if isinstance(x, ast.Assign) else [x.target])))
         _expect(k == n, f"load_globals: global_data.{attr} is written {k} times, expected {n}")
+    k = sum(1 for x in ast.walk(fn) if isinstance(x, (ast.Assign, ast.AugAssign, ast.NamedExpr))
+            and any(src(tg) == 'cube_index' for tg in (x.targets if isinstance(x, ast.Assign) else [x.target])))
+    _expect(k == (1 if out['cube_default'] else 0), f"load_globals: the parameter cube_index is re-assigned {k} times")
     out['stages'] = stages
     out['repl'] = repl
     return out
@@ -459,6 +472,8 @@ Import ListNotations.
    stage codes: 1 load  2 store img  3 bkgimg := zeros  4 rmsimg := zeros  5 dcurve := None  6 store cube_index  7 mask block
    8 curvature (if do_curve)  9 _make_bkg_rms (if lg_bane_needed)  10, 11 replacement by a file  12 img -= <map> *)
 Definition lg_early_return : bool := {_b(lg['early_return'])}.
+(* `if cube_index is None: cube_index = 0` directly after the early return (before load_image_band and before the index is stored) *)
+Definition lg_cube_default_first_plane : bool := {_b(lg['cube_default'])}.
 Definition lg_stages : list Z := [{'; '.join(str(s) for s in lg['stages'])}].
 (* rmsin / bkgin : "a file was given" *)
 Definition lg_bane_needed {fa} : bool := {lg['bane_needed']}.
